@@ -33,6 +33,12 @@ import (
 )
 
 var typeNames = []string{"ni", "nc", "rc", "tk"}
+
+// two values of clearly different encoded length: an overwrite with the
+// shorter one must not leave the tail of the longer one behind
+const shortVal = "s"
+const longVal = "a-much-longer-value-0123456789-0123456789-0123456789-0123456789"
+
 var idNames = []string{"a", "ab"}
 
 func newMsg(t, id, val string) nodeenrollment.MessageWithId {
@@ -250,7 +256,7 @@ func mutators(thorough bool) []string {
 	var ops []string
 	for _, t := range typeNames {
 		for _, id := range idNames {
-			ops = append(ops, "S:"+t+":"+id+":v1", "S:"+t+":"+id+":v2", "R:"+t+":"+id)
+			ops = append(ops, "S:"+t+":"+id+":"+shortVal, "S:"+t+":"+id+":"+longVal, "R:"+t+":"+id)
 		}
 	}
 	ops = append(ops, "Xnil", "Xtypednil", "Xunknown", "Xemptyid:ni", "Xemptyid:rc")
@@ -683,7 +689,7 @@ func init() {
 		ID:     "C19",
 		Level:  "model_checking",
 		Binary: "sched",
-		Rule: "sequential: BFS over {store v1|v2, remove} x 4 types x ids {a,ab} plus nil / typed-nil / unknown-type / empty-id operations on the real inmem, file and store-once back ends (quick depth 3/2, thorough fixpoint/3), state = map model, every transition followed by a full load+list comparison; concurrent: all interleavings (unbounded) of 2 threads x 2 ops and 3 threads x 1 op on the colliding slot ni/a of the in-memory back end under the scheduler, each history checked for linearizability with porcupine; " +
+		Rule: "sequential: BFS over {store short|long value, remove} x 4 types x ids {a,ab} plus nil / typed-nil / unknown-type / empty-id operations on the real inmem, file and store-once back ends (quick depth 3/2, thorough fixpoint/3), state = map model, every transition followed by a full load+list comparison; concurrent: all interleavings (unbounded) of 2 threads x 2 ops and 3 threads x 1 op on the colliding slot ni/a of the in-memory back end under the scheduler, each history checked for linearizability with porcupine; " +
 			"states = canonical model states of the sequential search; distinct_nontrivial = sequential states + distinct per-scenario concurrent outcomes",
 		Assumptions: []string{"scheduling points are the lock operations of the in-memory back end (sequential consistency in between); unsynchronised accesses are the race companion's job (sampling)", "the result of removing an absent entry is not constrained (back ends differ, the property is silent)"},
 		Shards:      func(c *engine.Ctx) int { return 16 },
